@@ -97,3 +97,21 @@ def replay(ctx, payload):
     print(payload.get("what"))
     print(payload.get("stub"))
     return 0
+
+
+CLAIM = {
+    "text": "Coq composition theorems over the stage models (Props/C01.v): pipeline_sound (for every class table with closed MROs, "
+            "every limit k, every chain in which RemoveEmptyContainers never follows RewriteLargeUnion, every collection of "
+            "observed values whose inferred types reached the merge as corrb-equal decoded copies in any order and multiplicity: "
+            "the rewritten merged type admits every observed value), pipeline_sound_default, pipeline_sound_no_rewriter, "
+            "pipeline_sound_store (the store hypothesis discharged by C08's type_roundtrip; get_type_inferable proved), member_corrb, "
+            "pipeline_sound_rendered_partial / pipeline_sound_denoted (reduction of the text-level statement to C11's per-case "
+            "denotation check); C01_full (stub TEXT, TypedDict class stubs included) is kept as a Definition. Tie: generated "
+            "programs through the real monkeytype.trace(config) -> SQLite -> `stub` CLI; every annotation evaluated in the stub's own "
+            "namespace; membership of every value the program recorded about itself decided in Coq.",
+    "note": "Partial: the text-level statement is proved only under C11's tokenwise premise and without generated TypedDict classes; "
+            "findings kf_typeddict_rendering and kf_hidden_builtin_type recorded. Trusted: Coq kernel + vm_compute, "
+            "harness/stubeval.py, the programs' self-recorded ground truth.",
+    "technique": "Coq proof by composition of the stage theorems + end-to-end differential runs with Coq-evaluated membership",
+    "ref": "4/C01",
+}
